@@ -299,10 +299,13 @@ def run(tier):
             v.add_mc(r)
         self_f.result()
         sc = scenarios(tier, gens)
+    bigpool, bigs = None, []
     if tier == "thorough":
-        v.add_mc(vf.tlc_exhaustive(PID, "SyncCommittee", "MC_SyncCommittee_big.cfg", timeout=2400, heap="8g"))
-        v.add_mc(vf.tlc_exhaustive(PID, "SyncCommittee", "MC_SyncCommittee_two_big.cfg", timeout=1200))
-        v.add_mc(vf.tlc_exhaustive(PID, "SyncCommittee", "MC_SyncCommittee_window_big.cfg", timeout=1200))
+        # the big exhaustive configurations run beside the conformance blocks
+        bigpool = concurrent.futures.ThreadPoolExecutor(max_workers=2)
+        bigs = [bigpool.submit(vf.tlc_exhaustive, PID, "SyncCommittee", "MC_SyncCommittee_big.cfg", workers=6, timeout=2400, heap="8g"),
+                bigpool.submit(lambda: [vf.tlc_exhaustive(PID, "SyncCommittee", c, workers=4, timeout=1500)
+                                        for c in ("MC_SyncCommittee_two_big.cfg", "MC_SyncCommittee_window_big.cfg")])]
     vf.conformance(v, sc, driver, "Trace_SyncCommittee", "Trace_SyncCommittee.cfg", sig_of, nontrivial,
                    chunk=None if tier == "quick" else 1500)
     if tier == "thorough":
@@ -318,6 +321,11 @@ def run(tier):
     # additional conformance block: what the aggregation jobs set up above do when they run
     # (synccommitteeaggregator/standard SetBeaconBlockRoot / Aggregate against pipeline B of Aggregation.tla)
     agg.finish(v, ah)
+    if bigpool is not None:
+        v.add_mc(bigs[0].result())
+        for r in bigs[1].result():
+            v.add_mc(r)
+        bigpool.shutdown()
     v.coverage["rule"] = ("behaviours of SyncCommittee.tla generated by TLC simulation (seeded; a messenger-centred and a "
                           "window-centred constant set), replayed on the real controller + sync committee messenger + "
                           "aggregator (+ real signer for a third); non-trivial = a Schedule with a non-empty window or a "
